@@ -40,6 +40,15 @@ where
             q_out: VecDeque::with_capacity(window_len),
         }
     }
+
+    /// Store the newest output; only the most recent one is ever read back.
+    #[inline]
+    fn push_out(&mut self, out: T) {
+        self.q_out.push_back(out);
+        if self.q_out.len() > 2 {
+            self.q_out.pop_front();
+        }
+    }
 }
 
 impl<T, V, M> View<T> for EhlersFisherTransform<T, V, M>
@@ -92,7 +101,7 @@ where
         }
 
         if self.high == self.low {
-            self.q_out.push_back(T::zero());
+            self.push_out(T::zero());
             return;
         }
         let half = T::from(0.5).expect("can convert");
@@ -110,13 +119,13 @@ where
 
         if self.q_out.is_empty() {
             // do not insert values when there are not enough values yet
-            self.q_out.push_back(T::zero());
+            self.push_out(T::zero());
             return;
         }
         let fish = half * ((T::one() + smoothed) / (T::one() - smoothed)).ln()
             + half * *self.q_out.back().unwrap();
         debug_assert!(fish.is_finite(), "value must be finite");
-        self.q_out.push_back(fish);
+        self.push_out(fish);
     }
 
     #[inline(always)]
